@@ -198,27 +198,73 @@ def placeholder_resolved(ctx: Ctx, rule: str) -> None:
 
 
 def wait_budget(ctx: Ctx, rule: str) -> None:
-    """How long a worker bounces off an occupied node before it may join in: the node's whole retry budget
-    (test_timeout x max_tries), polled every permille of it (at least 0.1 s)."""
+    """How long a worker bounces off an occupied node before it may join in.  From the property: a node may stay occupied, with no test
+    overrunning its timeout, for (number of test runs one execution consists of) x (number of tries, at least one) x test_timeout; the
+    waiter's budget must not be smaller than that.  Polled every permille of the budget (at least 0.1 s)."""
     fn = ctx.repo.func(T.TOT)
     ctx.touch(T.TOT)
-    from ..canon import inline_locals
-
     d = {}
     for s_ in ast.walk(fn.node):
         if isinstance(s_, ast.Assign) and len(s_.targets) == 1 and isinstance(s_.targets[0], ast.Name):
             d.setdefault(s_.targets[0].id, []).append(s_.value)
-    ok = False
     td = d.get("test_duration", [])
-    if len(td) == 1 and isinstance(td[0], ast.BinOp) and isinstance(td[0].op, ast.Mult):
-        factors = sorted(ast.unparse(x) for x in (td[0].left, td[0].right))
-        ok = factors == sorted(["next.params.get_numeric('test_timeout', 3600)", "next.params.get_numeric('max_tries', 1)"])
+    base = td[0] if td else None
+    why = ""
+    tries = None
+    if base is None or not (isinstance(base, ast.BinOp) and isinstance(base.op, ast.Mult)):
+        why = "the wait budget is no longer test_timeout x tries"
+    else:
+        fs = [base.left, base.right]
+        tmo = [x for x in fs if ast.unparse(x) == "next.params.get_numeric('test_timeout', 3600)"]
+        rest = [x for x in fs if x not in tmo]
+        if len(tmo) != 1 or len(rest) != 1:
+            why = f"the wait budget is not the node's test_timeout (default 3600) times its tries: {ast.unparse(base)}"
+        else:
+            tries = rest[0]
+    # (B1) the tries factor is at least 1 for every accepted max_tries (should_rerun rejects only negative values: 0 means 'no retries')
+    if not why:
+        mt = "next.params.get_numeric('max_tries', 1)"
+        t = tries
+        floor_ok = (isinstance(t, ast.Call) and isinstance(t.func, ast.Name) and t.func.id == "max" and len(t.args) == 2 and not t.keywords
+                    and sorted(ast.unparse(a) for a in t.args if not isinstance(a, ast.Constant)) == [mt]
+                    and any(isinstance(a, ast.Constant) and isinstance(a.value, (int, float)) and a.value >= 1 for a in t.args))
+        if not floor_ok:
+            neg = ctx.repo.func("cartgraph/node.py:TestNode.should_rerun")
+            rejects_zero = any(isinstance(c, ast.Compare) and ast.unparse(c) in ("max_tries < 1", "max_tries <= 0") for c in ast.walk(neg.node))
+            if ast.unparse(t) != mt or not rejects_zero:
+                why = (f"the tries factor of the wait budget is `{ast.unparse(t)}`: max_tries=0 is an accepted setting (only negative values are rejected, 0 runs the test once) "
+                       "and makes the budget zero, so a waiting worker joins a running test after its second poll")
+    # (B2) an execution that consists of k consecutive test runs keeps the node occupied for k timeouts
+    ttn = ctx.repo.func(T.TTN)
+    k = len([c for c in calls_in(ttn.node) if call_name(c) == "run_test_node"])
+    if k < 2:
+        raise AnalysisError(f"{T.TTN}: expected the two test runs of an object creation, found {k}")
+    why1, why = why, ""
+    if base is not None:
+        scaled = 1
+        for n_ in ast.walk(fn.node):
+            if isinstance(n_, ast.If) and ast.unparse(n_.test) == "next.is_object_root()":
+                for s_ in n_.body:
+                    if isinstance(s_, ast.AugAssign) and isinstance(s_.op, ast.Mult) and ast.unparse(s_.target) == "test_duration" and isinstance(s_.value, ast.Constant):
+                        scaled = s_.value.value
+                    if isinstance(s_, ast.Assign) and ast.unparse(s_.targets[0]) == "test_duration" and isinstance(s_.value, ast.BinOp) and isinstance(s_.value.op, ast.Mult):
+                        cs = [x.value for x in (s_.value.left, s_.value.right) if isinstance(x, ast.Constant)]
+                        if cs and "test_duration" in ast.unparse(s_.value):
+                            scaled = cs[0]
+        if not (isinstance(scaled, (int, float)) and scaled >= k):
+            why = (f"creating an object runs {k} tests in a row while its root stays occupied (traverse_terminal_node), but the wait budget of an object root is one test_timeout x tries: "
+                   "a waiter joins after one timeout although neither test overran its own, and the object is created twice at the same time")
+    why2, why = why, ""
     ot = d.get("occupied_timeout", [])
-    ok = ok and len(ot) == 1 and ast.unparse(ot[0]) == "round(max(test_duration / 1000, 0.1), 2)"
+    if not (len(ot) == 1 and ast.unparse(ot[0]) == "round(max(test_duration / 1000, 0.1), 2)"):
+        why = "the poll interval is no longer max(budget / 1000, 0.1) s"
     esc = [c for c in ast.walk(fn.node) if isinstance(c, ast.Compare) and ast.unparse(c) in ("occupied_wait > test_duration", "test_duration < occupied_wait")]
-    ok = ok and len(esc) == 1
-    ctx.record(rule, "CONST", T.TOT, "occupied-wait budget = test_timeout (3600) x max_tries (1); poll interval = max(budget / 1000, 0.1) s; re-entrancy only after waiting longer than the budget", ok,
-               {"test_duration": [ast.unparse(x) for x in td]}, "" if ok else "the time a worker waits at an occupied node before joining it changed (a waiter may join while the running worker is still within its retry budget)")
+    if not why and len(esc) != 1:
+        why = "re-entrancy is no longer granted only after waiting longer than the budget"
+    ctx.record(rule, "CONST", T.TOT, "occupied-wait budget = test_timeout x tries with tries >= 1 for every accepted max_tries (0 included)", not why1,
+               {"test_duration": [ast.unparse(x) for x in td]}, why1)
+    ctx.record(rule + "r", "CONST", T.TOT, f"the budget of an object root covers the {k} consecutive test runs of one creation (x{k})", not why2, {"runs_per_creation": k}, why2)
+    ctx.record(rule + "p", "CONST", T.TOT, "poll interval = max(budget / 1000, 0.1) s; re-entrancy only after waiting longer than the budget", not why, {}, why)
 
 
 def sync_errors(ctx: Ctx, rule: str) -> None:
